@@ -836,8 +836,16 @@ func (vfs *MemFS) Rename(oldpath, newpath string) error {
 			break
 		}
 
+		if nChild == oChild {
+			// oldpath and newpath are hard links to the same file: nothing to do.
+			return nil
+		}
+
 		switch nc := nChild.(type) {
 		case *fileNode:
+			nc.delete()
+		case *symlinkNode:
+			// a file replaces a symbolic link like any other non-directory.
 			nc.delete()
 		default:
 			err := error(avfs.ErrFileExists)
